@@ -192,6 +192,8 @@ class Program(object):
         trees = dict((name, parse_module(name, text)) for name, text in sources.items())
         from .constprop import propagate
         self.constants_propagated = propagate(trees)
+        from .cmexpand import expand as _expand_cms
+        self.context_managers_expanded = _expand_cms(trees)
         from .inline import import_foreign_helpers
         self.foreign_helpers = import_foreign_helpers(trees)
         for name, text in sources.items():
